@@ -229,6 +229,19 @@ def post(tier, rng, api, publication=True):
                            "wall_s": round(dt, 2), "describe": "all reachable states of the extracted model for small scripts: "
                            "boolean invariants, measure, deadlock freedom, final observations", "states": states})
     res["samples"].append({"stream": "model-bfs", "case": scripts[-1], "impl": "-", "model": lines[-1] if lines else "?"})
+    # a failing state of the model under the configuration read from the source is a concrete execution (label
+    # sequence) on which the property fails — for weakened memory orderings it is a weak-memory execution of the view
+    # model that no sequentially consistent run of the implementation can show
+    wit = [(sc, l) for sc, l in bad if " WITNESS " in l]
+    if wit:
+        sc, l = min(wit, key=lambda x: len(x[1]))
+        res["spec_failures"] = [{
+            "stream": "model-bfs", "mode": "pool-bfs", "case": sc.split(" ;")[0].strip(),
+            "impl": "execution of the model instantiated with the constants read from the source (view semantics of "
+                    "release/acquire; a sequentially consistent run of the implementation cannot exhibit a weak-memory "
+                    "execution): " + l.split(" WITNESS ", 1)[1],
+            "model": l, "spec_verdict": "false " + l.split(" WITNESS ", 1)[1].split(" after ")[0],
+            "crate": "hx-sched", "drv": "pool", "release": False}]
     if len(lines) != len(scripts) or bad:
         res["problem"] = "exhaustive exploration of the extracted model fails: " + "; ".join(f"[{s}] {l}" for s, l in bad[:3])
     return res
@@ -312,6 +325,8 @@ def _failing(group, mode, hbin, drv):
 def shrink(item, rerun):
     import vp
     mode = item["mode"]
+    if mode not in ("c06", "c07"):
+        return item
     hbin = os.path.join(vp.TARGET, "release" if item.get("release") else "debug", item.get("crate", "hx-sched"))
     drv = vp.driver_bin(item.get("drv", "pool"))
     group = item["case"].split(" #")[0]
